@@ -7,6 +7,7 @@ from .. import core
 from .. import gen as G
 
 LEVEL = "proof"
+READY = True
 CLAIM = {
     "text": "Lean theorems for all token lists / pointer strings without leading blanks or backslashes: print(parse s) = s, "
             "tokens(parse(spell ts)) = ts, equality is equality of reference tokens for every constructor (parse, from_parts, join, parent), "
